@@ -21,6 +21,61 @@ def nontrivial(script):
     return ('AddBlockRequest', 'send') in acts and ('AddBlock', 'ok') in acts and ('NextBlock', True) in acts
 
 
+def is_wire_replay(chk):
+    import json
+    return json.load(open(chk.replay)).get('replay', {}).get('script', {}).get('module') == 'BlockLoop'
+
+
+def wire_batch(chk, thorough):
+    """C13 at the level of the wire (spec/BlockLoop.tla): the real headers handler, block handler and processBlocks loop; every
+    getdata(block) queued for the connection is recorded.  Each block at most once, in chain order, at most W outstanding."""
+    import json
+    import os
+    if chk.replay:
+        rp = json.load(open(chk.replay))['replay']['script']
+        scripts = [{'id': rp['id'], 'steps': rp['steps']}]
+        m = None
+    else:
+        m = None
+        if not os.environ.get('VERIF_SKIP_MODEL'):
+            m = pipeline.model_check(chk, 'BlockLoop', 'MC_BlockLoop_quick.cfg', workers=8, timeout=900,
+                                     subst={'N = 6': 'N = 8', 'MaxSteps = 22': 'MaxSteps = 30'} if thorough else None)
+            if not m.ok:
+                chk.infra('model checking BlockLoop did not pass: %s %s' % (m.kind, m.violated))
+        scripts = []
+        for k in range(3 if thorough else 1):
+            ss = pipeline.sim_scripts(chk, 'BlockLoop', 'Sim_BlockLoop.cfg', num=40, depth=70, seed=chk.seed * 100 + 51 + k, prefix='wire')
+            scripts += [{'id': s['id'], 'steps': s['steps']} for s in ss]
+    lines, _ = pipeline.replay_parallel(chk, 'spynode', 'TestVerifReplayBlockLoop', {'n': 16}, scripts, nproc=14)
+    chk.log('replayed %d download scenarios on the real headers handler / block handler / processBlocks loop: %d trace lines' % (len(scripts), len(lines)))
+    bad, rej = [], []
+    for sel, rs, r in pipeline.tlc_lines_parallel(chk, 'Props_BlockLoop', 'Props_BlockLoop.cfg', lines, 'props_result.json', 4, 900):
+        bad += [(f, sel[j - 1]) for f, j in rs['bad']]
+    for sel, rs, r in pipeline.tlc_lines_parallel(chk, 'Trace_BlockLoop', 'Trace_BlockLoop.cfg', lines, 'trace_result.json', 4, 900):
+        rej += [sel[j - 1] for j in rs['rej']]
+    ids = {s['id']: s for s in scripts}
+    seen = set()
+    for f, l in sorted(bad, key=lambda x: x[1]):
+        ln = lines[l - 1]
+        if (ln['tr'], f) in seen:
+            continue
+        seen.add((ln['tr'], f))
+        idx = [k for k, x in enumerate(lines) if x['tr'] == ln['tr']]
+        i = idx.index(l - 1)
+        chk.violation(f, 'download scenario %s step %d %s: block requests written to the connection so far %s, %d blocks processed, window %s' % (
+            ln['tr'], i, json.dumps(ln['act']), ln['st']['wire'], ln['st']['done'], [(r['b'], r['f']) for r in ln['st']['req']]),
+            {'script': {'id': ln['tr'], 'module': 'BlockLoop', 'steps': ids[ln['tr']]['steps'][:i]}}, {'line': ln})
+    drift = sorted({lines[l - 1]['tr'] for l in rej})
+    if drift:
+        chk.notes.append('BlockLoop conformance drift: %d rejected lines (scenarios %s)' % (len(rej), drift[:5]))
+        chk.log('DRIFT: Trace_BlockLoop rejected %d recorded steps (scenarios %s)' % (len(rej), drift[:5]))
+        l = rej[0]
+        chk.log('  rejected: %s skip=%r\n     before %s\n     after  %s' % (lines[l - 1]['act'], lines[l - 1]['skip'], json.dumps(lines[l - 2]['st']), json.dumps(lines[l - 1]['st'])))
+    return {'scenarios': len(scripts), 'lines': len(lines), 'rejected': len(rej), 'false_instances': len(bad),
+            'max_requests_on_wire': max([len(l['st']['wire']) for l in lines] or [0]),
+            'model_states': m.distinct if m else 0}
+
+
 def main(argv):
     chk = core.Check('C13', 'model_checking', argv)
     thorough = chk.tier == 'thorough'
@@ -88,6 +143,8 @@ def main(argv):
         chk.infra('the model violates %s but the real code does not on the same calls: the model is wrong '
                   '(counterexample: %s)' % (r.violated, [s['a'] for s in scripts[0]['steps']]))
 
+    wire = wire_batch(chk, thorough) if not chk.replay or is_wire_replay(chk) else None
+
     distinct_nt = len({core.script_hash(s['steps']) for s in scripts if nontrivial(s)})
     maxwin = max(len(l['st']['req']) for l in lines)
     chk.finish({
@@ -102,7 +159,8 @@ def main(argv):
         'paused_states': sum(1 for l in lines if l['st']['pend'] > 4),
         'conformance_rejections': len(rej), 'false_formula_instances': len(bad),
         'model_cfg': 'W=3, 6-block tree, sizes {1,2}, MaxPend=2 (exhaustive)' if not thorough else 'W=4, 8-block tree (exhaustive)',
-        'checker_cmd': 'tlc MC_BlockRequests / Props_BlockRequests / Trace_BlockRequests',
+        'checker_cmd': 'tlc MC_BlockRequests / Props_BlockRequests / Trace_BlockRequests; MC_BlockLoop / Props_BlockLoop / Trace_BlockLoop',
+        'wire_batch': wire,
         'exhaustive': False,
     }, assumptions=[
         'the projection reads blocksRequested/blocksToRequest/pendingBlockSize/lastSavedHash under state.lock (overlay accessor)',
